@@ -347,8 +347,74 @@ def run(ctx, rng):
                 ctx.fail(f'hessian-false:{cname}', f'NonlinearForm(hessian=False) raises {type(e).__name__}: {e}', dict(desc, option='hessian=False'))
     # composite basis (two unknowns, two test functions): Navier-Stokes-like residual
     _composite(ctx, rng, check)
+    _derived_fields(ctx, rng, check)
     ctx.extra['nonlinear_max_relative_discrepancy'] = stats
     ctx.extra['nonlinear_tolerances'] = TOL
+
+
+def _derived_fields(ctx, rng, check):
+    """elements whose fields carry div / curl / hess (H(div), H(curl), C1-type): the NonlinearForm path hands these attributes
+    over through JaxDiscreteField(*c.astuple); linear and nonlinear integrands vs the independent NumPy assembly"""
+    import jax.numpy as jnp
+    import skfem as fe
+    import skfem.helpers as H
+    import skfem.autodiff.helpers as JH
+    from skfem.autodiff import NonlinearForm
+
+    def cdot(a, b, Hm):
+        return a * b if len(a.shape) == 2 else Hm.dot(a, b)
+
+    def hdiv(u, v, w, xp, Hm):
+        return Hm.div(u) * Hm.div(v) + Hm.dot(u, v) + (1. + Hm.dot(u, u)) * Hm.div(u) * Hm.div(v)
+
+    def l_hdiv(u, du, v, w, xp, Hm):
+        return (Hm.div(du) * Hm.div(v) + Hm.dot(du, v) + 2. * Hm.dot(u, du) * Hm.div(u) * Hm.div(v)
+                + (1. + Hm.dot(u, u)) * Hm.div(du) * Hm.div(v))
+
+    def hcurl(u, v, w, xp, Hm):
+        c2 = cdot(u.curl, u.curl, Hm)
+        return cdot(u.curl, v.curl, Hm) + Hm.dot(u, v) + c2 * cdot(u.curl, v.curl, Hm)
+
+    def l_hcurl(u, du, v, w, xp, Hm):
+        return (cdot(du.curl, v.curl, Hm) + Hm.dot(du, v) + 2. * cdot(u.curl, du.curl, Hm) * cdot(u.curl, v.curl, Hm)
+                + cdot(u.curl, u.curl, Hm) * cdot(du.curl, v.curl, Hm))
+
+    def hess(u, v, w, xp, Hm):
+        return Hm.ddot(Hm.dd(u), Hm.dd(v)) + _val(u) ** 3 * _val(v) + Hm.trace(Hm.dd(u)) ** 2 * Hm.trace(Hm.dd(v))
+
+    def l_hess(u, du, v, w, xp, Hm):
+        return (Hm.ddot(Hm.dd(du), Hm.dd(v)) + 3. * _val(u) ** 2 * _val(du) * _val(v)
+                + 2. * Hm.trace(Hm.dd(u)) * Hm.trace(Hm.dd(du)) * Hm.trace(Hm.dd(v)))
+    cfgs = [('div:tri-RT0', fe.MeshTri().refined(1), fe.ElementTriRT0(), hdiv, l_hdiv),
+            ('curl:tri-N1', fe.MeshTri().refined(1), fe.ElementTriN1(), hcurl, l_hcurl),
+            ('hess:tri-Morley', fe.MeshTri().refined(1), fe.ElementTriMorley(), hess, l_hess)]
+    if not ctx.quick():
+        cfgs += [('div:tet-RT0', fe.MeshTet(), fe.ElementTetRT0(), hdiv, l_hdiv), ('curl:tet-N1', fe.MeshTet(), fe.ElementTetN1(), hcurl, l_hcurl)]
+    for cname, m, elem, f, lin in cfgs:
+        basis = fe.Basis(m, elem)
+        x0 = 0.5 * (rng.random(basis.N) - 0.5)
+        desc = {'config': cname, 'mesh_p': m.p.tolist(), 'mesh_t': m.t.tolist(), 'element': type(elem).__name__, 'x': x0.tolist()}
+        key = f'nonlinear-field-attributes:{cname}'
+        ctx.count(('nl-derived', cname, x0.tolist()), nontrivial=True)
+        ctx.hist('nonlinear_config', cname)
+
+        def R(x):
+            return fe.LinearForm(lambda v, w: f(w['u0'], v, w, np, H)).assemble(basis, u0=basis.interpolate(x))
+        try:
+            J, rhs = NonlinearForm(lambda u, v, w: f(u, v, w, jnp, JH)).assemble(basis, x=x0)
+        except Exception as e:  # noqa: BLE001 - an exception of the code under test on a valid element is a failing input
+            ctx.fail(key, f'NonlinearForm with {type(elem).__name__} (fields carrying {cname.split(":")[0]}) raises {type(e).__name__}: {e}', desc)
+            continue
+        Jd = J.toarray()
+        r0 = R(x0)
+        check('residual', key, np.abs(rhs + r0).max(), np.abs(r0).max(), desc)
+        A = fe.BilinearForm(lambda u, v, w: lin(w['u0'], u, v, w, np, H)).assemble(basis, u0=basis.interpolate(x0)).toarray()
+        check('hand_linearised', key, np.abs(Jd - A).max(), np.abs(A).max(), desc)
+        h = 1e-5
+        for _ in range(ctx.n(2, 6)):
+            d = rng.random(basis.N) - 0.5
+            fd = (R(x0 + h * d) - R(x0 - h * d)) / (2 * h)
+            check('fd_directional', key, np.abs(Jd @ d - fd).max(), np.abs(fd).max(), dict(desc, direction=d.tolist()))
 
 
 def _composite(ctx, rng, check):
